@@ -46,6 +46,13 @@ Checks(e) ==
             NoCirculation    |-> NoCirculation(r),
             AtMostOnce       |-> AtMostOnce(r),
             ExactDelivery    |-> (NoCirculation(r) /\ LiveHardwareOnly(r)) => ExactDelivery(r, cores, exits)]
+    \* (end-to-end deployment, harness/props/deploy.py: the tables above are the entries INSTALLED in the simulated
+    \* machine's routers, and these events report what its cores run after load_application)
+    \* <<"core", x, y, p, binary wanted, state, application id, binary held, state before>>
+    [] e[1] = "core" -> [SinkCoreRunsItsBinary |-> e[6] = 7 /\ e[7] = Tr.app /\ e[8] = e[5],
+                         CoreWasFree           |-> e[9] = 15]
+    \* <<"spare", x, y, p, state before, application before, state after, application after>>
+    [] e[1] = "spare" -> [UnrequestedCoreUntouched |-> <<e[5], e[6]>> = <<e[7], e[8]>>]
     [] e[1] = "done" -> [Closed |-> TRUE]
     [] OTHER -> [UnknownEvent |-> FALSE]
 
